@@ -913,7 +913,7 @@ def check_c16(tier, seed):
     res.nontrivial = sum(1 for v in verdicts if v["nontrivial"])
     res.exhaustive = n_all == len(recs)
     res.extra["histories_model_checked"] = n_all
-    res.rule = ("MC: every history of the 19-call alphabet (global / per-type / recursive derives and attributes; insert, insert-if-absent, extend with valid arguments, a relative target, "
+    res.rule = ("MC: every history of the 21-call alphabet (global / per-type / recursive derives and attributes; insert, insert-if-absent, extend with valid arguments, a relative target, "
                 "parenthesised generics, a non-identifier source argument, a non-path target argument, a crate:: target) up to length 3 (quick) / 4 (thorough) with the invariants "
                 "'derives are unions by comprehension over the history', 'rule = last accepted insert', 'rejected call changes nothing', 'one rule per path', 'documented kinds'; "
                 "TV: a seeded sample (quick) of the maximal histories is replayed call by call on the real builders, after every call the result kind and the observable state "
